@@ -284,17 +284,50 @@ func (d *Data) AllocateBlock() []byte {
 	return make([]byte, numElements*bytesPerElement)
 }
 
+// backgroundVoxel returns the bytes of one voxel in which every value holds the Background
+// setting, encoded like stored voxel data (little endian) in the value's own type.
+func (d *Data) backgroundVoxel() []byte {
+	voxel := make([]byte, d.Values.BytesPerElement())
+	pos := int32(0)
+	for _, value := range d.Values {
+		n := dvid.DataTypeBytes(value.T)
+		switch value.T {
+		case dvid.T_float32:
+			binary.LittleEndian.PutUint32(voxel[pos:], math.Float32bits(float32(d.Background)))
+		case dvid.T_float64:
+			binary.LittleEndian.PutUint64(voxel[pos:], math.Float64bits(float64(d.Background)))
+		default:
+			// an integer type of n bytes: Background fits into the least significant byte
+			voxel[pos] = byte(d.Background)
+		}
+		pos += n
+	}
+	return voxel
+}
+
+// fillBackground sets every voxel of the buffer to the background value.
+func (d *Data) fillBackground(buf []byte) {
+	if d.Background == 0 {
+		return
+	}
+	voxel := d.backgroundVoxel()
+	if len(voxel) == 1 {
+		for i := range buf {
+			buf[i] = voxel[0]
+		}
+		return
+	}
+	for i := 0; i+len(voxel) <= len(buf); i += len(voxel) {
+		copy(buf[i:], voxel)
+	}
+}
+
 // BackgroundBlock returns a block buffer that has been preinitialized to the background value.
 func (d *Data) BackgroundBlock() []byte {
 	numElements := d.BlockSize().Prod()
 	bytesPerElement := int64(d.Values.BytesPerElement())
 	blockData := make([]byte, numElements*bytesPerElement)
-	if d.Background != 0 && bytesPerElement == 1 {
-		background := byte(d.Background)
-		for i := range blockData {
-			blockData[i] = background
-		}
-	}
+	d.fillBackground(blockData)
 	return blockData
 }
 
@@ -479,11 +512,7 @@ func (d *Data) GetBlocks(v dvid.VersionID, start dvid.ChunkPoint3d, span int32) 
 	numBytes := blockBytes * span
 
 	buf := make([]byte, numBytes, numBytes)
-	if d.Background != 0 {
-		for i := range buf {
-			buf[i] = byte(d.Background)
-		}
-	}
+	d.fillBackground(buf)
 
 	if gridStore != nil {
 		blockCoord := start
